@@ -219,7 +219,9 @@ func (w *World) verifyFunction(fn *ssa.Function, blk *Block, opts *Options) *Exe
 					ex.errorf("%s: %s", blk.Name, ee.msg)
 					return
 				}
-				panic(r)
+				// a construct outside the supported subset (on an edited tree): the obligations of this
+				// function can no longer be generated - reported as such, never a crash of the run
+				ex.errorf("%s: construct outside the supported subset: %v", blk.Name, r)
 			}
 		}()
 		ex.execBlock(fr, fn.Blocks[0], run, nil)
